@@ -131,7 +131,7 @@ def check_c06(tier, seed):
             hs.append(dict(base, id=f"same_v{ver}_mb{mb}", ver=ver, maxbuf=mb))
     run_batch(out, "random", "A", hs, spec="Trace_Handle", driver="hdrive")
     # truncate-then-extend inside the same final (mini) sector: a byte vector pads with zeros
-    run_batch(out, "setlen-within-unit", "A", hgens.setlen_within_unit_histories(tier), spec="Trace_Handle", driver="hdrive")
+    run_batch(out, "setlen-within-unit", "A", hgens.setlen_within_unit_histories(tier) + hgens.dirty_growth_histories(tier)[::2], spec="Trace_Handle", driver="hdrive")
     # beyond the listed properties (informational, tag XDROP): the handle outlives the CompoundFile
     run_batch(out, "file-dropped", "A", hgens.dropped_file_histories(tier, seed), spec="Trace_Handle", driver="hdrive")
     return finish(out, "model_checking",
